@@ -5,6 +5,8 @@ patch=$1; tier=$2; shift 2
 cd /repo || exit 2
 git diff --quiet || { echo "/repo working tree is not clean"; exit 2; }
 git apply "$patch" || { echo "patch does not apply"; exit 2; }
+# evidence written while the seeded change is applied does not describe /repo: keep the committed files
+rm -rf /tmp/try_mutant.evidence.$$; cp -r /verif/evidence /tmp/try_mutant.evidence.$$
 for p in "$@"; do
 	out=/tmp/try_mutant.$$.$p.log
 	( cd /verif && ./check $p $tier ) > $out 2>&1
@@ -15,4 +17,5 @@ for p in "$@"; do
 	rm -f $out
 done
 git -C /repo checkout -- .
+rm -rf /verif/evidence; mv /tmp/try_mutant.evidence.$$ /verif/evidence
 cd /verif && git status --porcelain replays | awk '{print $2}' | xargs -r rm -f
